@@ -40,10 +40,10 @@ DF = 'self.data'
 NERR = f'c12c_nonnumeric_upto({DF}, c12c_ncols({DF})) + ite(c12c_has_null({DF}), 1, 0)'
 contract(D + '_audit', 'C12', modifies=[], returns='tuple[list[str], list[str]]',
          ensures={'fresh': 'c12_fresh_lists(result)',
-                  'one_error_per_non_numeric_column_plus_one_for_nan': f'len(result[0]) == {NERR}',
+                  'one_error_per_non_numeric_column_plus_one_for_nan': f'len(c12_errs(result)) == {NERR}',
                   'no_error_iff_all_numeric_and_no_nan':
-                      f'(len(result[0]) == 0) == (forall(lambda q: c12c_col_numeric({DF}, q), 0, c12c_ncols({DF})) and not c12c_has_null({DF}))',
-                  'no_warning': 'len(result[1]) == 0'},
+                      f'(len(c12_errs(result)) == 0) == (forall(lambda q: c12c_col_numeric({DF}, q), 0, c12c_ncols({DF})) and not c12c_has_null({DF}))',
+                  'no_warning': 'len(c12_warns(result)) == 0'},
          invariants={1: {'clauses': {
              'locals_are_new_lists': 'c12_fresh_lists((list_of_errors, list_of_warnings))',
              'old_lists_unchanged': 'c12_old_objects_unchanged()',
@@ -73,7 +73,10 @@ contract(D + '__init__', 'C12', types={'name': 'str', P: 'DataFrame'},
                                           'theDraws', '_avail', '_choice', '_expression')],
          raises={'BiogemeError': FAULTY},
          ensures={'frame_stored': f'self.data is {P} and self.fullData is {P}',
-                  'flat_data': 'self.panelColumn is None and self.individualMap is None and self.excludedData == 0'},
+                  'flat_data': 'self.panelColumn is None and self.individualMap is None and self.excludedData == 0',
+                  # (m5, round 3) a new database is flat, has no draws and no formula under check
+                  'initial_state': 'self.fullIndividualMap is None and self.theDraws is None and self.number_of_draws == 0 and '
+                                   'self._avail is None and self._choice is None and self._expression is None and same(self.name, name)'},
          replay=REPLAY_DATA + '''
 wrong = []
 for name, df in FRAMES.items():
